@@ -17,6 +17,14 @@ KF_FILE = os.path.join(VERIF, 'known-findings.txt')
 
 _built = {}
 
+FAMILY_BOUNDS = {
+    'state_ops': 'all sequences of <= 8 operations over {push, pop, save(3 slots x 3 values), enter, commit, spush, spop} (iterative deepening within the time budget)',
+    'iter': '~65 patterns x ~35 texts x backtrack limits {default,1,3,30}: find_iter / captures_iter / split / splitn(n = 0..pieces+1) vs the reference model driven by the real single-shot search',
+    'search': '~80 patterns x ~40 texts x every char-boundary start offset: entry-point coherence, offset validity, group metadata',
+    'analyze': '~2000 patterns from a 3-level grammar (incl. huge repeat counts) : Info facts vs match-length sets enumerated up to 14 characters',
+    'quote': 'all strings of length <= 3 over a 28-symbol alphabet (every meta-character, 2-4 byte characters) x 5 host patterns x 7 texts',
+}
+
 
 def build_replay():
     """(ok, message). Rebuilds against the current working tree of the repo (cargo tracks the path dependency)."""
